@@ -1223,12 +1223,13 @@ func TestC16CursorHistory(t *testing.T) {
 	fw.Run(t, fw.Spec[histCase]{
 		ID: "C16", Name: "cursor_history", Quick: 30000, Thorough: 600000,
 		Gen: genCase, Check: checkHist,
-		Rule: "a table t (CSV file or temporary table, 0-6 rows) and a history of 4-25 operations on two cursors generated up front: DECLARE (8 queries incl. ORDER BY, LIMIT, variable, join, subquery; 2 prepared statements), OPEN [USING], FETCH in all six positions with offsets -9..9, CLOSE, DISPOSE, WHILE IN (VAR, BREAK, DML in the body), IS [NOT] OPEN / IS [NOT] IN RANGE / COUNT via SELECT or PRINT, INSERT/UPDATE/DELETE/COMMIT/ROLLBACK on t; executed statement by statement on one session next to a model {declared, open, snapshot, pointer set, fetched}; the snapshot is the result of the cursor's own query run as a SELECT immediately before or after OPEN; every cursor still open at the end is swept by FETCH ABSOLUTE 0..len. Non-trivial = a data change between OPEN and a later in-range fetch, or a relative fetch after the pointer left the view; distinct by the compressed operation/outcome sequence",
+		Rule: "a table t (CSV file or temporary table, 0-6 rows) and a history of 4-25 operations on two cursors generated up front: DECLARE (8 queries incl. ORDER BY, LIMIT, variable, self-join, common table expression; 2 prepared statements), OPEN [USING], FETCH in all six positions with offsets -9..9, CLOSE, DISPOSE, WHILE IN (VAR, BREAK, DML in the body), IS [NOT] OPEN / IS [NOT] IN RANGE / COUNT via SELECT or PRINT, INSERT/UPDATE/DELETE/COMMIT/ROLLBACK on t; executed statement by statement on one session next to a model {declared, open, snapshot, pointer set, fetched}; the snapshot is the result of the cursor's own query run as a SELECT immediately before or after OPEN; every cursor still open at the end is swept by FETCH ABSOLUTE 0..len. Non-trivial = a data change between OPEN and a later in-range fetch, or a relative fetch after the pointer left the view; distinct by the compressed operation/outcome sequence",
 		Assumptions: []string{
 			"variables after an out-of-range fetch: NULL (manual) and unchanged (implementation) are both admitted, record data is not",
 			"after a WHILE IN that ran to the end the pointer may be on the last record (literal reading of control-flow.md) or past it (FETCH NEXT semantics); the model keeps both until an observation decides",
 			"a FETCH with the wrong number of variables must fail when it addresses a record; whether the pointer moved is left open",
 			"CLOSE of a closed cursor, DISPOSE of an open cursor and redeclaration are not constrained by the property (redeclaration without the error 11001 discards the case)",
+			"FROM-subqueries over t are replaced by a common table expression (avoidFromSubqueryPoisonsFileInfo): after a FROM-subquery over a file every later INSERT/UPDATE/DELETE on that file fails, a defect outside this property; DML that fails for a non-cursor reason discards the case (measured as out_of_domain:*)",
 			"the row order of an unordered SELECT over one small table at CPU 1 is the same in two consecutive evaluations",
 		},
 	})
